@@ -161,7 +161,7 @@ ShadowExts ==
   { P("funcdef_hideparam", 1, <<T("void"), T("f"), T("("), N("declspecs", 0), N("ptr", 0), N("hide", 0), N("suffix", 0), T(")"), T("{"), N("items", 0), T("}")>>),
     P("funcdef_hideparam_paren", 1, <<T("void"), T("f"), T("("), N("declspecs", 0), T("("), T("*"), N("qualT", 0), N("hide", 0), T(")"), N("suffix", 0), T(")"), T("{"), N("items", 0), T("}")>>),
     P("funcdef_hideparam2", 1, <<T("void"), T("f"), T("("), T("int"), T("x"), T(","), N("declspecs", 0), N("ptr", 0), N("hide", 0), T(")"), T("{"), N("items", 0), T("}")>>) }
-TypeOfT == {"typedefname", "atomic_T"}
+TypeOfT == {"typedefname", "atomic_T", "retypedef", "retypedef_in_body"}      \* productions that use T as a type
 
 \* ---------- statements; param: 1 = must be "closed" (followed by else), 0 = free
 S(c) == N("stmt", c)
@@ -181,7 +181,8 @@ StmtAlts(c) ==
     P("pragmastmt", 1, <<T("\n#pragma p\n"), S(c)>>), P("_Pragma", 1, <<T("_Pragma"), T("("), T("\"p\""), T(")"), S(c)>>) }
   \cup (IF c = 0 THEN { P("if", 1, <<T("if"), T("("), E(1), T(")"), S(0)>>) } ELSE {})
   \cup ShadowStmts(c)
-ItemsAlts == { P("item1", 0, <<N("item", 0)>>), P("items2", 1, <<N("item", 0), N("item", 0)>>), P("noitems", 1, <<>>) }
+ItemsAlts == { P("retypedef", 1, <<T("{"), T("typedef"), N("declspecs", 1), N("ptr", 0), T("T"), T(";"), T("T"), T("x"), T(";"), T("}"), T("T"), T("x"), T(";"), N("item", 0)>>),
+               P("item1", 0, <<N("item", 0)>>), P("items2", 1, <<N("item", 0), N("item", 0)>>), P("noitems", 1, <<>>) }
 ItemAlts == { P("itemstmt", 0, <<S(0)>>), P("itemdecl", 1, <<N("decl", 0)>>) }
 \* ---------- external declarations
 ExtAlts == { P("extdecl", 0, <<N("decl", 0)>>),
@@ -189,6 +190,7 @@ ExtAlts == { P("extdecl", 0, <<N("decl", 0)>>),
              P("funcdef_void", 1, <<T("void"), T("f"), T("("), T("void"), T(")"), T("{"), N("items", 0), T("}")>>),
              P("funcdef_kr", 1, <<T("int"), T("f"), T("("), T("p"), T(")"), T("int"), T("p"), T(";"), T("{"), N("items", 0), T("}")>>),
              P("funcdef_implicit", 1, <<T("f"), T("("), T(")"), T("{"), N("items", 0), T("}")>>),
+             P("retypedef_in_body", 1, <<T("void"), T("f"), T("("), T("void"), T(")"), T("{"), T("typedef"), N("declspecs", 1), T("T"), T(";"), N("items", 0), T("}"), T("T"), T("x"), T(";")>>),
              P("stray;", 1, <<T(";")>>), P("filepragma", 1, <<T("\n#pragma p\n")>>) } \cup ShadowExts
 TUAlts == { P("tu1", 0, <<N("ext", 0)>>), P("tu2", 1, <<N("ext", 0), N("ext", 0)>>) }
 
@@ -218,6 +220,8 @@ Expand == /\ stack # <<>> /\ Head(stack)[1] = "N"
           /\ \E a \in Alts(Head(stack)[2], Head(stack)[3]) :
                /\ a.c <= fuel /\ fuel' = fuel - a.c
                /\ (a.n \in TypeOfT => \A i \in DOMAIN feat : feat[i] # "hideT")
+               \* (an object T declared in the scope in which the body re-typedefs T would be a redeclaration)
+               /\ (a.n = "hideT" => \A i \in DOMAIN feat : feat[i] # "retypedef_in_body")
                /\ stack' = a.r \o Tail(stack)
                /\ feat' = IF a.c > 0 \/ a.n = "hideT" THEN Append(feat, a.n) ELSE feat
           /\ UNCHANGED toks
